@@ -40,6 +40,9 @@ SEGMENTS = (
 def cases(draw, subject):
     cfg = draw(gc.config(subject))
     kw = cfg["kw"]
+    if subject == "MACD" and draw(st.integers(0, 3)) == 0:
+        # the two periods given the wrong way round: the library puts them back in order itself
+        kw["fast_period"], kw["slow_period"] = kw["slow_period"], kw["fast_period"]
     if "input_value" in kw and "cls" in cfg and cfg["cls"] not in ("ROC", "Counter") and draw(st.integers(0, 3)) == 0:
         kw["input_value"] = "volume"
     if draw(st.integers(0, 6)) == 0:  # a legal name suffix; dots are documented to be sanitised
